@@ -10,6 +10,7 @@ import (
 	"strings"
 	"testing"
 	"time"
+	"unicode/utf8"
 
 	"github.com/go-logr/logr"
 	apierrors "k8s.io/apimachinery/pkg/api/errors"
@@ -124,11 +125,19 @@ func c08LastWins(cs []conditions.Condition) []conditions.Condition {
 	return out
 }
 
+// c08PrevMsgCap: a previous status is something the API server stored, so its messages are within the CRD
+// limit; a longer computed message appears in it cut to a few runes below the limit.
+const c08PrevMsgCap = 32768 - 7
+
 func c08API(cs []conditions.Condition, gen int64, tt metav1.Time) []metav1.Condition {
 	out := make([]metav1.Condition, 0, len(cs))
 	for _, c := range c08LastWins(cs) {
+		msg := c.Message
+		if utf8.RuneCountInString(msg) > c08PrevMsgCap {
+			msg = string([]rune(msg)[:c08PrevMsgCap])
+		}
 		out = append(out, metav1.Condition{
-			Type: c.Type, Status: c.Status, Reason: c.Reason, Message: c.Message, ObservedGeneration: gen,
+			Type: c.Type, Status: c.Status, Reason: c.Reason, Message: msg, ObservedGeneration: gen,
 			LastTransitionTime: tt,
 		})
 	}
@@ -146,6 +155,15 @@ type c08Gen struct {
 }
 
 var c08Fill = []string{"x", "validation failed: spec.rules[0].matches[0].path.value: Invalid value; ", "é", "日本"}
+
+// foreignMsg: messages of other controllers' entries are always within the CRD limit (the API server stored them).
+func (g *c08Gen) foreignMsg() string {
+	long := g.long
+	g.long = false
+	m := g.msg()
+	g.long = long
+	return m
+}
 
 func (g *c08Gen) msg() string {
 	g.nmsg++
@@ -345,7 +363,7 @@ func (g *c08Gen) foreignEntry(own []c08GoEntry, ctl string) c08GoEntry {
 	for _, ti := range perm[:1+r.Intn(3)] {
 		e.Conds = append(e.Conds, metav1.Condition{
 			Type: c08FTypes[ti], Status: []metav1.ConditionStatus{"True", "False", "Unknown"}[r.Intn(3)],
-			Reason: c08FReasons[r.Intn(len(c08FReasons))], Message: g.msg(), ObservedGeneration: int64(r.Intn(12)),
+			Reason: c08FReasons[r.Intn(len(c08FReasons))], Message: g.foreignMsg(), ObservedGeneration: int64(r.Intn(12)),
 			LastTransitionTime: metav1.Unix(int64(1600000000+r.Intn(1000000)), 0),
 		})
 	}
@@ -365,9 +383,13 @@ func (g *c08Gen) perturbCond(cs []metav1.Condition) bool {
 			c.Status = metav1.ConditionTrue
 		}
 	case 1:
-		c.Message = g.msg()
+		c.Message = g.foreignMsg()
 	case 2:
-		c.ObservedGeneration--
+		if c.ObservedGeneration > 0 {
+			c.ObservedGeneration--
+		} else {
+			c.ObservedGeneration++
+		}
 	case 3:
 		c.Reason = "Stale"
 	}
@@ -406,7 +428,7 @@ func (g *c08Gen) ownPrev(exp []c08GoEntry, room int) ([]c08GoEntry, string) {
 	case x < 81:
 		if room > 0 {
 			st := c08GoEntry{Name: "old-gw", Conds: []metav1.Condition{{
-				Type: "Accepted", Status: "True", Reason: "Accepted", Message: g.msg(), ObservedGeneration: 1,
+				Type: "Accepted", Status: "True", Reason: "Accepted", Message: g.foreignMsg(), ObservedGeneration: 1,
 				LastTransitionTime: metav1.Unix(1500000000, 0),
 			}}}
 			if len(exp) > 0 {
@@ -518,6 +540,10 @@ func c08RunRound(in *c08Intern, crds *c08CRDs, s *c08Spec, tt metav1.Time, plan 
 	for _, st := range plan {
 		a := c08AttRec{Get: []string{"ok", "error", "notfound"}[st.get], Upd: []string{"ok", "conflict", "error"}[st.upd]}
 		if st.get == 0 {
+			// what the API server serves is something it admitted: a generator slip must not look like a finding
+			if errs := crds.validate(s.kindVersion(), st.serve); len(errs) > 0 {
+				panic(fmt.Sprintf("c08: generated previous status is not admissible: %v", errs))
+			}
 			p := in.project(st.serve)
 			a.Served = &p
 		}
@@ -535,13 +561,31 @@ func c08RunRound(in *c08Intern, crds *c08CRDs, s *c08Spec, tt metav1.Time, plan 
 
 // ---------------------------------------------------------------- terms
 
-func c08RoundT(r c08RoundRec) string {
+// c08Binder shares repeated status terms of one case through let-bindings (a status served unchanged at
+// four attempts is parsed once).
+type c08Binder struct {
+	names map[string]string
+	defs  []string
+}
+
+func (b *c08Binder) status(s c08Status) string {
+	t := c08StatusT(s)
+	if n, ok := b.names[t]; ok {
+		return n
+	}
+	n := fmt.Sprintf("st%d", len(b.names))
+	b.names[t] = n
+	b.defs = append(b.defs, fmt.Sprintf("let %s := %s in ", n, t))
+	return n
+}
+
+func c08RoundT(b *c08Binder, r c08RoundRec) string {
 	atts := make([]string, len(r.Attempts))
 	for i, a := range r.Attempts {
 		g := "GetErr"
 		switch a.Get {
 		case "ok":
-			g = vu.App("GetOK", c08StatusT(*a.Served))
+			g = vu.App("GetOK", b.status(*a.Served))
 		case "notfound":
 			g = "GetNotFound"
 		}
@@ -556,20 +600,21 @@ func c08RoundT(r c08RoundRec) string {
 		if o.Submitted == nil {
 			obs[i] = "None"
 		} else {
-			obs[i] = vu.Some(vu.Pair(c08StatusT(*o.Submitted), vu.Bool(o.CRDOk)))
+			obs[i] = vu.Some(vu.Pair(b.status(*o.Submitted), vu.Bool(o.CRDOk)))
 		}
 	}
 	return vu.App("Round", vu.Z(r.Gen), vu.Z(r.Time), c08ComputedT(r.Computed), vu.List(atts), vu.List(obs))
 }
 
 func c08CaseT(kind int, ctl string, lim c08Limits, rounds []c08RoundRec) string {
+	b := &c08Binder{names: map[string]string{}}
 	rs := make([]string, len(rounds))
 	for i, r := range rounds {
-		rs[i] = c08RoundT(r)
+		rs[i] = c08RoundT(b, r)
 	}
 	l := vu.App("Lim", vu.Nat(lim.Entries), vu.Nat(lim.Conds), vu.N(uint64(lim.Msg)), vu.N(uint64(lim.Reason)),
 		vu.Nat(lim.Lsts), vu.Nat(lim.Addrs), vu.Nat(lim.Kinds))
-	return vu.App("Case", c08KindNames[kind], vu.Str(ctl), l, vu.Nat(c08Steps), vu.List(rs))
+	return "(" + strings.Join(b.defs, "") + vu.App("Case", c08KindNames[kind], c08S(ctl), l, vu.Nat(c08Steps), vu.List(rs)) + ")"
 }
 
 // ---------------------------------------------------------------- one case
@@ -952,5 +997,5 @@ func TestVerifC08(t *testing.T) {
 		second := []int{0, 1, 1, 1, 2}[g.rng.Intn(5)]
 		c08Emit(out, g, crds, s, plan, strings.TrimSpace(modes), "", second)
 	}
-	out.Close("C08.Check", "")
+	out.Close("C08.Check", c08Preamble())
 }
